@@ -35,7 +35,7 @@ func c15Rules(dir, file string) []c15Rule {
 		{"year", "year", "19", "1996"}, {"year2month", "year2month", "1996", "1996-09"}, {"date", "date", "1996-09", "1996-09-28"},
 		{"datetime", "datetime", "x", "1996-09-28 23:00:00"}, {"date", "date=/", "1996-09-28", "1996/09/28"},
 		{"int", "int", "1.5", "15"}, {"ints", "ints", "1,a", "1,2"}, {"float", "float", "1", "1.5"},
-		{"re", "re='^a+$'", "b", "aa"}, {"ip", "ip", "1.2.3", "1.2.3.4"}, {"ipv4", "ipv4", "::1", "1.2.3.4"}, {"ipv6", "ipv6", "1.2.3.4", "::1"},
+		{"re", "re='^a+$'", "b", "aa"}, {"re", "re='^(male|female)$'", "x", "male"}, {"re", "re='a|b'", "c", "b"}, {"re", "re='^(男|女)$'", "x", "女"}, {"ip", "ip", "1.2.3", "1.2.3.4"}, {"ipv4", "ipv4", "::1", "1.2.3.4"}, {"ipv6", "ipv6", "1.2.3.4", "::1"},
 		{"unique", "unique", "a,a", "a,b"}, {"json", "json", "{", "{}"}, {"prefix", "prefix=ab", "xab", "abx"}, {"suffix", "suffix=ab", "abx", "xab"},
 		// CJK (and byte-alias) characters in the rule VALUE: the label must follow the message alone
 		{"in", "in=(男/女)", "x", "男"}, {"include", "include=(篮球/足球)", "x", "打篮球"}, {"prefix", "prefix=成都", "x成都", "成都x"}, {"suffix", "suffix=路", "路x", "x路"},
@@ -205,6 +205,61 @@ func runC15(c *core.Ctx) {
 					}
 					if cl := cls[0]; cl.Label != clause.LabelFor(msg) || cl.Text != msg {
 						res.Violate("C15|message|"+key+"|message-not-verbatim|long-value|"+cr, fmt.Sprintf("%s: %q on a %d-byte value returned %s; want explanation %q", cr, text, len(val), trunc(out.String(), 300), clause.LabelFor(msg)+" "+msg), wit)
+					}
+				}
+			}
+		}
+	}
+
+	// ---- (A4) values that are not strings: whenever a rule the documentation applies to that kind is
+	// reported as violated, the clause carries the message (the verdict itself is C01/C05's business)
+	a4 := 0
+	type nv struct {
+		rules []string
+		v     interface{}
+	}
+	nonStr := []nv{
+		{[]string{"int", "in=(1/2)", "eq=3", "ge=9", "float"}, true},
+		{[]string{"in=(1/2)", "eq=3", "lt=2", "noeq=7", "to=1~2", "float"}, 7},
+		{[]string{"in=(1/2)", "eq=3", "lt=2", "le=1", "oto=1~2", "int"}, 7.5},
+		{[]string{"in=(1/2)", "gt=300", "int"}, uint8(200)},
+		{[]string{"in=(1/2)", "ge=3", "float"}, float32(2.5)},
+		{[]string{"unique", "ints", "eq=1", "le=2", "to=5~6"}, []string{"a", "a", "x"}},
+		{[]string{"unique", "eq=1", "gt=5"}, []int{4, 4, 4}},
+		{[]string{"unique", "ints", "lt=2"}, [2]string{"q", "q"}},
+		{[]string{"unique", "le=1"}, []float64{0.5, 0.5}},
+		{[]string{"unique", "ge=3"}, []bool{true, true}},
+	}
+	for _, x := range nonStr {
+		for _, r := range x.rules {
+			for _, msg := range c15Msgs {
+				for _, cr := range []string{drive.Var, drive.StructRM, drive.StructCtx, drive.MapT} {
+					a4++
+					if !c.Mine(a4) {
+						continue
+					}
+					text := r + "|" + msg
+					rv := reflect.ValueOf(x.v)
+					out, ok := drive.Carry(cr, rv, text)
+					if !ok || out.Nil {
+						continue
+					}
+					res.Eval()
+					res.DistinctEnum(1)
+					key := ruleKeyOf(r)
+					wit := map[string]string{"carrier": cr, "rule": text, "value": fmt.Sprintf("%T %v", x.v, x.v), "library_returned": trunc(out.String(), 400)}
+					if out.Panic != "" {
+						res.Violate("C15|message|"+key+"|panic|"+cr, fmt.Sprintf("%s %q on %T %v panicked: %s", cr, text, x.v, x.v, out.Panic), wit)
+						continue
+					}
+					cls := clause.Parse(out.Err)
+					if len(cls) != 1 || cls[0].Kind != clause.Input {
+						continue // a rule-writing complaint, or the kind is not one the rule is documented for
+					}
+					res.Count("message_clauses_checked")
+					res.Count("non_string_value_cases")
+					if cl := cls[0]; cl.Label != clause.LabelFor(msg) || cl.Text != msg {
+						res.Violate("C15|message|"+key+"|message-not-verbatim|"+rv.Kind().String()+"|"+cr, fmt.Sprintf("%s: %q on %T %v returned %s; want explanation %q", cr, text, x.v, x.v, trunc(out.String(), 300), clause.LabelFor(msg)+" "+msg), wit)
 					}
 				}
 			}
